@@ -15,6 +15,7 @@ import (
 
 	"verifharness/internal/core"
 	"verifharness/internal/crsgen"
+	"verifharness/internal/refproj"
 )
 
 // Scenario is one transformation request.
@@ -78,7 +79,7 @@ type state struct {
 func init() {
 	core.Register(&core.Prop{
 		ID: "C09",
-		Rule: "live phase: case = one generated projected definition (every projection form, ellipsoid by built-in name / a+b / a+rf, datum none / named / 3- and 7-term towgs84, units m/ft/us-ft/to_meter, prime meridian by name or value) with 4 positions in its usable region, transformed geographic->projected, projected->geographic and (when both sides name a datum) projected->projected onto a second definition on another datum, by the Go port (fresh SR objects and transformer per call) and by proj4js 2.3.12 running under node; agreement 1e-4 m (/to_meter) or 1e-9 deg; datum-less definitions only against the geographic system on the same ellipsoid; " +
+		Rule: "ellipsoid_pairs phase: the complete square of built-in ellipsoid names (30% with the source replaced by a custom ellipsoid whose 1/f is within 1e-9..1e-5 of the destination's), both sides geographic with an all-zero +towgs84, 4 positions, against the geocentric reference chain (5 mm) and live proj4js (1e-9 deg); live phase: case = one generated projected definition (every projection form, ellipsoid by built-in name / a+b / a+rf, datum none / named / 3- and 7-term towgs84, units m/ft/us-ft/to_meter, prime meridian by name or value) with 4 positions in its usable region, transformed geographic->projected, projected->geographic and (when both sides name a datum) projected->projected onto a second definition on another datum, by the Go port (fresh SR objects and transformer per call) and by proj4js 2.3.12 running under node; agreement 1e-4 m (/to_meter) or 1e-9 deg; datum-less definitions only against the geographic system on the same ellipsoid; " +
 			"corpus phase: the same comparison against recorded proj4js outputs (fixed seeds) so that the check does not depend on node; formulas phase: forward projections vs independently written Snyder / Karney-Krueger / Helmert reference formulas within 5 mm; tables phase: every built-in ellipsoid, datum, prime-meridian and unit name parsed and compared with proj4js's constants; " +
 			"an evaluation is one point (or one table entry) compared; non-trivial = scenario with a datum shift or a non-metre unit or a named prime meridian; distinct by scenario hash",
 		Assumptions: []string{"the live oracle needs node (present in this image); without it the run uses the recorded corpus and says so in coverage.oracle", "non-default +axis excluded (proj4js returns null for it); covered by C10", "points where proj4js itself yields no finite result are counted, not judged"},
@@ -97,10 +98,11 @@ func init() {
 				return 20000
 			}},
 			{Name: "tables", Workers: 1, NumCases: func(t string) int { return 1 }},
+			{Name: "ellipsoid_pairs", Workers: 4, NumCases: func(t string) int { return len(crsgen.Ellipsoids) * len(crsgen.Ellipsoids) }},
 		},
 		Setup: func(c *core.Ctx) {
 			st := &state{}
-			if c.Phase == "live" || c.Phase == "tables" {
+			if c.Phase == "live" || c.Phase == "tables" || c.Phase == "ellipsoid_pairs" {
 				st.oracle = StartOracle()
 				if st.oracle == nil {
 					c.Count("oracle.node_unavailable")
@@ -117,7 +119,7 @@ func init() {
 		},
 		Run: run,
 		Floors: func(t string) map[string]int64 {
-			return map[string]int64{"corpus.points": 10000, "formulas.points": 10000, "tables.ellipsoids": 40, "tables.datums": 14, "tables.prime_meridians": 12, "tables.units": 2}
+			return map[string]int64{"corpus.points": 10000, "formulas.points": 10000, "tables.ellipsoids": 40, "tables.datums": 14, "tables.prime_meridians": 12, "tables.units": 2, "ellipsoid_pairs.points_vs_reference": 5000}
 		},
 	})
 }
@@ -134,6 +136,8 @@ func run(c *core.Ctx, idx int) {
 		runFormulasImpl(c)
 	case "tables":
 		runTables(c)
+	case "ellipsoid_pairs":
+		runEllipsoidPair(c, idx)
 	}
 }
 
@@ -416,4 +420,90 @@ func GenCorpus(path string, n int) error {
 	}
 	fmt.Printf("recorded %d scenarios from %d cases into %s\n", cnt, n, path)
 	return nil
+}
+
+// runEllipsoidPair is one ordered pair of built-in ellipsoids (the complete
+// square is enumerated), both sides geographic with an explicit all-zero datum
+// shift (a known datum whose frame is WGS84's): the transformation is the pure
+// change of ellipsoid through geocentric coordinates. It is compared with the
+// reference chain (5 mm) and, when node is available, with proj4js (0.1 mm).
+// Pairs of nearly equal ellipsoids are the ones an "are these the same datum"
+// shortcut can get wrong.
+func runEllipsoidPair(c *core.Ctx, idx int) {
+	n := len(crsgen.Ellipsoids)
+	i, j := idx/n, idx%n
+	if i == j {
+		return
+	}
+	r := c.R
+	zeros := func() string {
+		return []string{" +towgs84=0,0,0", " +towgs84=0,0,0,0,0,0,0", " +towgs84=0,0,0"}[r.Intn(3)]
+	}
+	src := "+proj=longlat +ellps=" + crsgen.Ellipsoids[i] + zeros() + " +no_defs"
+	dst := "+proj=longlat +ellps=" + crsgen.Ellipsoids[j] + zeros() + " +no_defs"
+	ell := func(def string) (refproj.Ell, bool) {
+		sr, err := proj.Parse(def)
+		if err != nil || sr == nil {
+			return refproj.Ell{}, false
+		}
+		return refproj.Ell{A: sr.A, F: 1 - math.Sqrt(1-sr.Es)}, true
+	}
+	if r.Chance(0.3) {
+		// a custom ellipsoid next to the destination's: same semi-major axis, reciprocal
+		// flattening off by a relative 1e-9 .. 1e-5 (a truncated constant)
+		if sr, err := proj.Parse(dst); err == nil && sr.Rf > 0 && !math.IsInf(sr.Rf, 0) {
+			delta := math.Pow(10, r.Range(-9, -5)) * float64(1-2*r.Intn(2))
+			src = "+proj=longlat +a=" + crsgen.F(sr.A) + " +rf=" + crsgen.F(sr.Rf*(1+delta)) + zeros() + " +no_defs"
+			c.Count("ellipsoid_pairs.custom_neighbour_of_builtin")
+		}
+	}
+	es, ok1 := ell(src)
+	ed, ok2 := ell(dst)
+	if !ok1 || !ok2 {
+		c.Violate("ellipsoid-pair:parse", "a built-in ellipsoid name does not parse: "+src+" / "+dst, map[string]interface{}{"src": src, "dst": dst})
+		return
+	}
+	var pts [][2]float64
+	for k := 0; k < 3; k++ {
+		pts = append(pts, [2]float64{r.Range(-179, 179), r.Range(-85, 85)})
+	}
+	pts = append(pts, [2]float64{r.Range(-179, 179), 45})
+	got, errs := goTransform(src, dst, pts)
+	var want []*[2]float64
+	if st := c.State.(*state); st.oracle != nil {
+		if out, err := st.oracle.Transform(src, dst, pts); err == nil {
+			want = out
+		} else {
+			c.Count("ellipsoid_pairs.oracle_error")
+		}
+	}
+	c.Nontrivial(core.NewHasher().Str(src).Str(dst).Sum())
+	for k, p := range pts {
+		detail := map[string]interface{}{"src": src, "dst": dst, "point": p}
+		if got[k] == nil {
+			c.Violate("ellipsoid-pair:error", fmt.Sprintf("%s -> %s fails: %s", crsgen.Ellipsoids[i], crsgen.Ellipsoids[j], errs[k]), detail)
+			continue
+		}
+		detail["go"] = *got[k]
+		c.Eval()
+		c.Count("ellipsoid_pairs.points_vs_reference")
+		wl, wp := refproj.Shift(es, refproj.Helmert{N: 3}, ed, refproj.Helmert{N: 3}, p[0]*d2r, p[1]*d2r)
+		wl, wp = wl/d2r, wp/d2r
+		detail["reference"] = []float64{wl, wp}
+		dm := math.Max(lonDiff(got[k][0], wl)*math.Cos(p[1]*d2r), math.Abs(got[k][1]-wp)) * 111000
+		c.Max("max_diff_m.ellipsoid_pairs_reference", dm)
+		if dm > 0.005 {
+			c.Violate("ellipsoid-pair:formula-mismatch", fmt.Sprintf("%s -> %s: Go (%v, %v) vs geocentric reference (%v, %v): %.3g m apart (tolerance 5 mm)", crsgen.Ellipsoids[i], crsgen.Ellipsoids[j], got[k][0], got[k][1], wl, wp, dm), detail)
+			continue
+		}
+		if want != nil && want[k] != nil {
+			c.Count("ellipsoid_pairs.points_vs_proj4js")
+			detail["proj4js"] = *want[k]
+			dx, dy := lonDiff(got[k][0], want[k][0]), math.Abs(got[k][1]-want[k][1])
+			c.Max("max_diff_deg.ellipsoid_pairs_proj4js", math.Max(dx, dy))
+			if !(dx <= 1e-9 && dy <= 1e-9) {
+				c.Violate("ellipsoid-pair:proj4js-mismatch", fmt.Sprintf("%s -> %s: Go (%v, %v) vs proj4js (%v, %v)", crsgen.Ellipsoids[i], crsgen.Ellipsoids[j], got[k][0], got[k][1], want[k][0], want[k][1]), detail)
+			}
+		}
+	}
 }
